@@ -9,7 +9,7 @@
 (*   InvGuess     make_inv_guess: LN_2 (binary64) * 2^-bits, exact         *)
 (*   NewtonStep   r * (2 - s * r)                                          *)
 (*   InvRoutine   impl_inverse_uint_scale as a whole       (MC_Inverse)    *)
-(*   ExpRoutine   exp_with_guard_digits / exp              (MC_ExpMech)    *)
+(*   SqrtRoutine, CbrtRoutine   impl_sqrt, impl_cbrt_uint_scale (MC_Roots) *)
 (***************************************************************************)
 EXTENDS Ops
 
@@ -52,4 +52,49 @@ InvRoutine(s, p, mode) ==
   LET r1 == NewtonStep(s, InvGuess(s.d, s.sc))
       r == InvLoop(s, r1, DZero, DZero, p + 2, InvCap(p))
   IN IF Digits(r) > p THEN RoundToPrec(r, p, mode) ELSE r
+
+\* ---- integer k-th root (floor), Newton from above: the specification's stand-in for num-bigint's sqrt / nth_root
+RECURSIVE NRootIter(_, _, _)
+NRootIter(n, k, x) ==
+  LET xk1 == NPow(x, k - 1)
+      y == NDivModSmall(NAdd(NMulSmall(x, k - 1), NDiv(n, xk1)), k)[1]
+  IN IF NCmp(y, x) >= 0 THEN x ELSE NRootIter(n, k, y)
+NRoot(n, k) == IF n = <<>> THEN <<>> ELSE NRootIter(n, k, Pow10((Len(n) + k - 1) \div k))
+
+\* ---- impl_sqrt (src/arithmetic/sqrt.rs) on a positive decimal: pad to 2(p+5) digits keeping the scale even, integer
+\*      root, one extra digit 1 when the root is inexact (sticky), one rounding to p digits
+SqrtRoutine(x, p, mode) ==
+  LET wanted == 2 * (p + 5)
+      e0 == MaxI(0, wanted - Len(x.d))
+      e == IF (x.sc + e0) % 2 # 0 THEN e0 + 1 ELSE e0
+      shifted == Shl(x.d, e)
+      r == NRoot(shifted, 2)
+      rs == (x.sc + e) \div 2
+      inexact == NMul(r, r) # shifted
+      u == IF inexact THEN Mk(1, NAdd(NMulSmall(r, 10), One), rs + 1) ELSE Mk(1, r, rs)
+  IN RoundToPrec(u, p, mode)
+
+\* ---- impl_cbrt_uint_scale (src/arithmetic/cbrt.rs): pad to 3(p+4) digits with the scale a multiple of three, integer
+\*      cube root, exactness flag, trim to p digits, round the last kept digit from the first trimmed digit and the
+\*      (lazily evaluated) all-zero flag under the sign-aware mode
+TruncDiv3(a) == IF a >= 0 THEN a \div 3 ELSE -((-a) \div 3)
+CbrtRoutine(x, p, mode) ==
+  IF x.d = <<>> THEN Mk(0, <<>>, TruncDiv3(x.sc))
+  ELSE
+  LET req == 3 * (p + 4)
+      sh0 == MaxI(0, req - Len(x.d))
+      ss == x.sc + sh0
+      q == TruncDiv3(ss)
+      rem == ss - 3 * q
+      ns0 == IF rem > 0 THEN q + 1 ELSE q
+      sh == IF rem > 0 THEN sh0 + (3 - rem) ELSE IF rem < 0 THEN sh0 - rem ELSE sh0
+      digits == Shl(x.d, sh)
+      root == NRoot(digits, 3)
+      exact == NMul(NMul(root, root), root) = digits
+      trim == Len(root) - p
+      kept == Shr(root, trim)
+      insig0 == At(root, trim)
+      tz == exact /\ LowAllZero(root, trim - 1)
+      away == RoundAway(mode, x.s < 0, At(root, trim + 1) % 2 = 1, insig0, tz)
+  IN Mk(x.s, IF away THEN NAdd(kept, One) ELSE kept, ns0 - trim)
 =============================================================================
